@@ -19,8 +19,6 @@ use crate::common::{arroy_db, catch, dump, floats_of, fresh_scratch_dir, verif_r
 use crate::layout::decode_index;
 use crate::oracle::{self, check_result, Exactness};
 
-type D = arroy::distances::Euclidean;
-const METRIC: Metric = Metric::Euclidean;
 
 #[derive(Clone, Copy)]
 struct Scenario {
@@ -32,16 +30,23 @@ struct Scenario {
     collapse: bool,
     /// available_memory given to every build (several insertion batches when more than 200 items are pending)
     memory: Option<usize>,
+    metric: Metric,
+    /// the version that starts with `Writer::clear` and re-adds everything (a full re-index)
+    clear_in: Option<usize>,
 }
 
 fn scenario(name: &str) -> Scenario {
     match name {
-        "small" => Scenario { dim: 2, base_items: 6, indexes: 1, versions: 3, collapse: false, memory: None },
-        "collapse" => Scenario { dim: 4, base_items: 14, indexes: 2, versions: 4, collapse: true, memory: None },
-        "large" => Scenario { dim: 8, base_items: 300, indexes: 2, versions: 4, collapse: false, memory: None },
+        // a metric whose build rewrites every leaf (the preprocessing pass of DotProduct)
+        "dot" => Scenario { dim: 3, base_items: 9, indexes: 2, versions: 3, collapse: false, memory: None, metric: Metric::DotProduct, clear_in: None },
+        // a full re-index: version 2 clears the index and adds everything again
+        "reindex" => Scenario { dim: 2, base_items: 10, indexes: 2, versions: 3, collapse: false, memory: None, metric: Metric::Euclidean, clear_in: Some(2) },
+        "small" => Scenario { dim: 2, base_items: 6, indexes: 1, versions: 3, collapse: false, memory: None, metric: Metric::Euclidean, clear_in: None },
+        "collapse" => Scenario { dim: 4, base_items: 14, indexes: 2, versions: 4, collapse: true, memory: None, metric: Metric::Euclidean, clear_in: None },
+        "large" => Scenario { dim: 8, base_items: 300, indexes: 2, versions: 4, collapse: false, memory: None, metric: Metric::Euclidean, clear_in: None },
         // several insertion batches per build: 250 items, then 450 more, under a zero memory hint
-        "batches" => Scenario { dim: 4, base_items: 210, indexes: 1, versions: 3, collapse: false, memory: Some(0) },
-        _ => Scenario { dim: 24, base_items: 1500, indexes: 3, versions: 4, collapse: false, memory: None },
+        "batches" => Scenario { dim: 4, base_items: 210, indexes: 1, versions: 3, collapse: false, memory: Some(0), metric: Metric::Euclidean, clear_in: None },
+        _ => Scenario { dim: 24, base_items: 1500, indexes: 3, versions: 4, collapse: false, memory: None, metric: Metric::Euclidean, clear_in: None },
     }
 }
 
@@ -57,6 +62,10 @@ fn vec_for(sc: &Scenario, index: u16, id: u32, salt: u32) -> Vec<u32> {
 /// The item operations of version `v` (1-based) on `index`: (id, Some(vector) = add, None = delete).
 fn ops_of(sc: &Scenario, index: u16, v: usize) -> Vec<(u32, Option<Vec<u32>>)> {
     let n = sc.base_items;
+    if sc.clear_in == Some(v) {
+        // after the clear: everything again, with other vectors, plus a few new ids
+        return (0..n + 3).map(|id| (id, Some(vec_for(sc, index, id, 5)))).collect();
+    }
     if sc.collapse {
         // v1: a forest; v2: everything but three items deleted (single bucket); v3: grown again; v4: emptied
         return match v {
@@ -103,6 +112,9 @@ fn models(sc: &Scenario) -> Vec<BTreeMap<u16, BTreeMap<u32, Vec<u32>>>> {
     let mut cur: BTreeMap<u16, BTreeMap<u32, Vec<u32>>> = (0..sc.indexes).map(|i| (i, BTreeMap::new())).collect();
     for v in 1..=sc.versions {
         for index in 0..sc.indexes {
+            if sc.clear_in == Some(v) {
+                cur.get_mut(&index).unwrap().clear();
+            }
             for (id, op) in ops_of(sc, index, v) {
                 match op {
                     Some(vec) => {
@@ -162,9 +174,14 @@ pub fn child(dir: &str, scenario_name: &str, kill_at_event: i64) -> i32 {
         for v in (resume_after + 1)..=sc.versions {
             let mut wtxn = env.write_txn().unwrap();
             for index in 0..sc.indexes {
+              crate::with_metric!(sc.metric, D => {
                 let mut writer = arroy::Writer::<D>::new(arroy_db::<D>(db), index, sc.dim);
                 // build scratch files go to a directory that survives the kill, like a real deployment's
                 writer.set_tmpdir(&tmp);
+                if sc.clear_in == Some(v) {
+                    y("item-op");
+                    writer.clear(&mut wtxn).unwrap();
+                }
                 for (id, op) in ops_of(&sc, index, v) {
                     y("item-op");
                     match op {
@@ -187,6 +204,7 @@ pub fn child(dir: &str, scenario_name: &str, kill_at_event: i64) -> i32 {
                 });
                 b.progress(|_| y("progress"));
                 b.build(&mut wtxn).unwrap();
+              });
             }
             y("before-commit");
             writeln!(ack, "COMMITTING {v}").unwrap();
@@ -295,17 +313,20 @@ fn judge(dir: &Path, sc: &Scenario, run: &ChildRun, refs: &[Kv], models: &[BTree
         if version > 0 {
             let db = db.unwrap();
             for index in 0..sc.indexes {
+              crate::with_metric!(sc.metric, D => {
                 let model = &models[version][&index];
                 let reader = arroy::Reader::<D>::open(&rtxn, index, arroy_db::<D>(db)).map_err(|e| ("K/open-failed".to_string(), format!("version {version} index {index} does not open: {e}")))?;
-                let ix = decode_index(&got, index, METRIC, sc.dim).map_err(|e| ("F/undecodable".to_string(), e))?;
-                oracle::structure(&ix, &model.keys().copied().collect(), METRIC, sc.dim).map_err(|(c, m)| (format!("K/{c}"), m))?;
+                let ix = decode_index(&got, index, sc.metric, sc.dim).map_err(|e| ("F/undecodable".to_string(), e))?;
+                oracle::structure(&ix, &model.keys().copied().collect(), sc.metric, sc.dim).map_err(|(c, m)| (format!("K/{c}"), m))?;
                 let n = model.len().min(10);
                 for q in [vec_for(sc, index, 3, 1), vec_for(sc, index, 11, 2)] {
                     let res = crate::hist::query::<D>(&reader, &rtxn, None, Some(&floats_of(&q)), n, Some(usize::MAX), None, None)
                         .map_err(|e| ("K/query-failed".to_string(), e))?
                         .unwrap();
-                    check_result(METRIC, sc.dim, model, &q, n, None, &res, Exactness::Exact, true).map_err(|(c, m)| (format!("K/{c}"), m))?;
+                    check_result(sc.metric, sc.dim, model, &q, n, None, &res, Exactness::Exact, true).map_err(|(c, m)| (format!("K/{c}"), m))?;
                 }
+                Ok::<(), (String, String)>(())
+              })?;
             }
         }
         Ok(version)
@@ -320,7 +341,7 @@ pub fn run(tier: Tier) -> i32 {
     let mut report = Report::new("C09", tier, "fault_enumeration");
     report.assume("process kill, not power loss: the page cache survives; torn sectors and lost unsynced blocks exercise LMDB, which the property trusts");
     report.assume("kill points are the script's events (API boundaries, cancel polls, progress calls) and the boundaries of the write-family system calls on data.mdb");
-    let names: &[&str] = if tier == Tier::Quick { &["small", "collapse", "batches", "large"] } else { &["small", "collapse", "batches", "large", "xl"] };
+    let names: &[&str] = if tier == Tier::Quick { &["small", "dot", "reindex", "collapse", "batches", "large"] } else { &["small", "dot", "reindex", "collapse", "batches", "large", "xl"] };
     for n in names {
         // quick tier: in the two bulk scenarios the history is resumed after every 6th event kill
         // (and after every system-call kill); everywhere else after every kill
